@@ -170,6 +170,15 @@ def rule_pooling(ctx: Ctx) -> None:
         ctx.violate("C13-pooling", "get_scene_result", "all-frames",
                     f"the scene score pools `{S(lps[0].text)}` – a part of the stored frame results only; every evaluated frame must contribute", fi=fi, expected="for frame in self.frame_results", found=S(lps[0].text))
         return
+    if len(lps) == 1 and S(lps[0].text) != "self.frame_results" and "self.frame_results" in S(lps[0].text):
+        t = S(lps[0].text)
+        keyed = re.search(r"\{[^{}]*:[^{}]*for\w+inself\.frame_results[^{}]*\}|dict\(|set\(|\{[^{}:]*for\w+inself\.frame_results", t) is not None
+        if keyed or "sorted(" in t or "reversed(" in t:
+            ctx.violate("C13-pooling", "get_scene_result", "all-frames-keyed" if keyed else "all-frames-reordered",
+                        f"the scene score pools `{t[:140]}`: " + ("entries of self.frame_results that share a key (frame numbers are NOT unique: one ground-truth frame can be evaluated for several messages) collapse to one, "
+                        "so evaluations drop out of the pooled score and the result depends on the order they were added" if keyed else "the stored frame results are re-ordered before pooling"), fi=fi,
+                        expected="for frame in self.frame_results", found=t[:200])
+            return
     ctx.require(len(lps) == 1 and S(lps[0].text) == "self.frame_results", f"get_scene_result: the pooling loop iterates {[S(l.text) for l in lps]} – every stored frame result, in order")
     lp = lps[0]
     fv = U(lp.node.target)
